@@ -13,8 +13,8 @@ RULE = ("one case = (method, direction, dense flag, event mix incl. simultaneous
         "direction; non-trivial = >=1 reported event; distinct by (method,direction,dense,event mix,seed)")
 ASSUMPTIONS = ["true roots with |dg/dt| below 5% of the function's scale (tangential) and pairs of true roots closer than the location tolerance are excluded",
                "root location tolerance in t: K*(dy*|s||grad h|/|dg/dt| + max(4eps(1+|t|), ulp(t))) with dy = node error + h^4 max|y''''|/384, K=10"]
-FLOORS = {"quick": {"events_checked": 150, "events_backward": 50, "events_nodense": 50, "steps_with_two_events": 3, "boundary_root_events": 6, "events_on_small_steps": 12, "events_on_tiny_steps": 4},
-          "thorough": {"events_checked": 1500, "events_backward": 500, "events_nodense": 500, "steps_with_two_events": 30, "boundary_root_events": 60, "events_on_small_steps": 150, "events_on_tiny_steps": 20}}
+FLOORS = {"quick": {"events_checked": 150, "events_backward": 50, "events_nodense": 50, "steps_with_two_events": 3, "boundary_root_events": 6, "events_on_small_steps": 12, "events_on_tiny_steps": 4, "boundary_root_events_sharing_a_step": 30},
+          "thorough": {"events_checked": 1500, "events_backward": 500, "events_nodense": 500, "steps_with_two_events": 30, "boundary_root_events": 60, "events_on_small_steps": 150, "events_on_tiny_steps": 20, "boundary_root_events_sharing_a_step": 150}}
 QUICK_METHODS = ["RK45CKSolver", "DOPRI45", "RK4Solver", "EulerSolver", "RK8713MSolver", "ABAs5o6HSolver", "SymplecticEulerSolver",
                  "BackwardEuler", "RadauIIA5", "GaussLegendre4", "MidpointSolver", "RK108Solver"]
 CASE_TIMEOUT = 900
@@ -62,6 +62,8 @@ def gen_cases(tier, seed):
             for dense in (True, False):
                 cases.append(dict(kind="boundary", method=name, direction=d, dense=dense, t0=0.0 if d > 0 else 2.0, tf=2.0 if d > 0 else 0.0,
                                   nsteps=32.0, nev=3, pseed=int(rng.integers(1 << 30)), cost=3))
+                cases.append(dict(kind="boundary", shared=True, method=name, direction=d, dense=dense, t0=0.0 if d > 0 else 2.0, tf=2.0 if d > 0 else 0.0,
+                                  nsteps=32.0, nev=6, pseed=int(rng.integers(1 << 30)), cost=4))
     return cases
 
 
@@ -79,6 +81,13 @@ def run_case(spec):
     if spec["kind"] == "boundary":
         for c in (0.5, 1.0, 1.5):
             evspecs.append({"kind": "time", "scale": float(10 ** rng.uniform(-3, 3)) * float(rng.choice([-1, 1])), "c": c, "direction": 0, "terminal": False})
+        if spec.get("shared"):
+            # two events share a step and one root is on its boundary: companions cross strictly inside the step BEFORE (0.5, 1.5) or AFTER (1.0)
+            # the boundary root, along the direction of integration (dt = 1/16)
+            hstep = 2.0 / spec["nsteps"]
+            for c, side in ((0.5, -1), (1.0, +1), (1.5, -1)):
+                evspecs.append({"kind": "time", "scale": float(10 ** rng.uniform(-3, 3)) * float(rng.choice([-1, 1])), "c": c + side * d * hstep * float(rng.uniform(0.2, 0.8)),
+                                "direction": 0, "terminal": False})
     elif spec["kind"] == "smallstep":
         e1 = random_event_spec(rng, prob, t0, tf, dim, terminal=False, kinds=["dstate"])
         e1["direction"] = int(rng.choice([-1, 1]))
@@ -184,6 +193,8 @@ def run_case(spec):
                 rec.bump("events_nodense")
             if spec["kind"] == "boundary":
                 rec.bump("boundary_root_events")
+                if spec.get("shared"):
+                    rec.bump("boundary_root_events_sharing_a_step")
             if spec["kind"] == "smallstep":
                 rec.bump("events_on_small_steps")
                 if spec.get("fixed_h", 1.0) < 1e-4:
